@@ -35,9 +35,15 @@ def legal_tree(rng, pns=(), depth=0, maxdepth=3, root=True, eml=False):
         attrs[name(rng)] = text(rng, ATTR_CH)
     extras = {}
     if not eml:
+        expanded = set()    # two prefixes may bind one namespace name: {uri}local must stay unique (XML Namespaces, outside the quantifier otherwise)
         for _ in range(rng.choice([0, 0, 1, 2])):
             pf = rng.choice(list(ns.keys()) + ["xml"]) if ns else "xml"
-            extras[pf + ":" + (name(rng) if pf != "xml" else rng.choice(["lang", "space"]))] = text(rng, ATTR_CH)
+            local = name(rng) if pf != "xml" else rng.choice(["lang", "space"])
+            v = text(rng, ATTR_CH)
+            if (ns.get(pf, XMLNS), local) in expanded:
+                continue
+            expanded.add((ns.get(pf, XMLNS), local))
+            extras[pf + ":" + local] = v
     nk = rng.randint(0, 3) if depth < maxdepth else 0
     content = rng.choice([None, "", text(rng, TEXT_CH, 10)])
     if eml:
